@@ -242,8 +242,10 @@ theorem schemaExpr_wf (O : EOra) (hO : OraOk O) : ∀ (s : Schema) (d : Option P
     simp only [emitOk] at h
     simp only [schemaExpr]
     apply wf_call_default O hO _ _ d (by decide) h
-    · rcases dName_cases d with e | e <;> rw [e] <;> simp [kw, nodupL]
-    · rfl
+    · simp only [List.map_append, names_optKw]
+      rcases dName_cases d with e | e <;> rw [e] <;> cases mn <;> cases mx <;> simp [kw, nodupL]
+    · rw [wfKws_append, wfKws_optKw _ _ _ (by decide) natExpr_wf, wfKws_optKw _ _ _ (by decide) natExpr_wf]
+      rfl
   | .mapOf v mn mx, d, h => by
     simp only [emitOk, Bool.and_eq_true] at h
     simp only [schemaExpr]
@@ -328,7 +330,7 @@ theorem docItems_ok (desc : Option String) (h : descOk desc = true) :
     (docItems desc).all wfItem = true ∧ bodyLike (docItems desc) := by
   cases desc with
   | none => exact ⟨rfl, Or.inl rfl⟩
-  | some d => exact ⟨by simpa [docItems, wfItem, descOk] using h, Or.inr (by simp [docItems, nonBlank])⟩
+  | some d => exact ⟨by simp [docItems, wfItem], Or.inr (by simp [docItems, nonBlank])⟩
 
 theorem finish_ok (all : List Item) (h1 : all.all wfItem = true) (h2 : bodyLike all) :
     (if all.isEmpty then [Item.pass] else all).all wfItem = true
